@@ -30,6 +30,9 @@ H = {
     "commit_open_slots_fresh_n1": dict(crate="zkchannels-crypto", what="generate_proof_commitments: every slot left open by the caller gets a draw of its own (tagged RNG stub): open-slot scalars are draws, pairwise different, and different from the draws of the blinding factor and of its commitment scalar (N=1; all patterns of given/open slots)", functions=["cproof.CommitmentProofBuilder::generate_proof_commitments (statement 3: scalar selection closure)"], bound="tuple length N=1"),
     "commit_open_slots_fresh_n2": dict(crate="zkchannels-crypto", what="same, N=2", functions=["cproof.CommitmentProofBuilder::generate_proof_commitments (statement 3: scalar selection closure)"], bound="tuple length N=2"),
     "commit_open_slots_fresh_n3": dict(crate="zkchannels-crypto", what="same, N=3", functions=["cproof.CommitmentProofBuilder::generate_proof_commitments (statement 3: scalar selection closure)"], bound="tuple length N=3"),
+    "secret_key_scalars_nonzero_n1": dict(crate="zkchannels-crypto", what="SecretKey::new (statements before `let x1`, sliced verbatim): x and every y_i are non-zero for every randomness stream containing up to 3 zero scalars at any positions (N=1)", functions=["ps.SecretKey::new (statements before the public x1: non-zero scalar sampling)"], bound="tuple length N=1; at most 3 zero draws in the stream"),
+    "secret_key_scalars_nonzero_n2": dict(crate="zkchannels-crypto", what="same, N=2", functions=["ps.SecretKey::new (statements before the public x1: non-zero scalar sampling)"], bound="tuple length N=2; at most 3 zero draws in the stream"),
+    "range_params_sign_each_digit": dict(crate="zkchannels-crypto", what="RangeConstraintParameters::new makes one key pair, signs exactly the digits 0..127 in order with it and publishes that key (KeyPair::new and Signature::new are recording stubs); complete for the fixed u = 128", functions=["range.RangeConstraintParameters::new"]),
     "range_digits_exact": dict(crate="zkchannels-crypto", what="prefix of generate_constraint_commitments (sign test + digit decomposition, sliced verbatim): Err iff value < 0; otherwise 9 digits < 128 with sum d_j*128^j == value; all i64, bit-precise, shape-independent", functions=["range.RangeConstraintBuilder::generate_constraint_commitments (statements before the digit proof builders)"]),
     "g1_codec_validates": dict(crate="zkchannels-crypto", what="G1 element codec: for all 48-byte strings the wire bytes reach bls12_381 G1Affine::from_compressed unchanged, exactly once, no non-validating decoder is reached, and the result is Ok iff that decoder accepts; shorter input is an error", functions=["serde.<G1Affine as SerializeElement>::deserialize"]),
     "g1_codec_short_input": dict(crate="zkchannels-crypto", what="G1 element codec: any input shorter than 48 bytes is an error (no panic) and reaches no decoder", functions=["serde.<G1Affine as SerializeElement>::deserialize"]),
@@ -47,7 +50,18 @@ def _slice_digits():
     return o["text"]
 
 
+def _slice_sk():
+    import vxlib
+    o = vxlib.run_extract([{"id": "sk", "file": "zkchannels-crypto/src/pointcheval_sanders.rs", "path": "impl SecretKey::new", "mode": "slice", "stmts_until": "let x1", "raw": True}])["items"][0]
+    if not o["ok"]:
+        raise Machinery("SecretKey::new slice: %s" % o["error"])
+    return o["text"]
+
+
 def _inject(scratch):
+    with open(os.path.join(scratch, "zkchannels-crypto/src/pointcheval_sanders.rs"), "a") as f:
+        f.write("\n#[cfg(kani)]\nfn vx_kani_sk_scalars<const N: usize>(rng: &mut impl Rng, g1: &G1Projective) -> (Scalar, [Scalar; N]) {\n        %s\n        (x, ys)\n}\n" % _slice_sk())
+        f.write('#[cfg(kani)]\npub(crate) mod verif_kani_ps { include!("%s"); }\n' % os.path.join(VERIF, "kani/harness/zc_ps.rs"))
     with open(os.path.join(scratch, "zkchannels-crypto/src/proofs/commitment.rs"), "a") as f:
         f.write('\n#[cfg(kani)]\nmod verif_kani_cproof { include!("%s"); }\n' % os.path.join(VERIF, "kani/harness/zc_commitment.rs"))
     with open(os.path.join(scratch, "zkchannels-crypto/src/proofs/range.rs"), "a") as f:
